@@ -314,3 +314,67 @@ Example C16_session_example_rs_by_theorem : forall j closable fti,
   session_meta_delivered_rs exs_cfg false exs_now exsr_m exr_content exs_rcfg r cx.
 Proof. exact exsr_late_by_theorem. Qed.
 (* ===== end block: C01RS ===== *)
+
+From FluteV Require Import Proofs.C02MultiFdt.
+(* ===== block: C02MultiFdt ===== *)
+(* ---------------- mid-FDT join: the FDT instance spans several packets (Proofs/C02MultiFdt.v) ----------------
+   The receiver (Model/Recv.v, recv_run from recv0 / ctx0, the FDT parser an oracle as in the C02_session theorems) starts at ANY
+   packet offset j of one transmission [fcyc] of the instance (FDT packets of a carousel: no close-object flag; each
+   TOI 0, EXT_FDT = id, EXT_FTI = (foti, |d|), genuine for the document d, not expired: fdt_pkt_multi, unfolded in
+   C02_session_multi_fdt_statements), receives the rest of it and one whole further transmission.  Meanwhile packets
+   [pre] of the object arrive, carrying EXT_FTI = (oti, L), no EXT_CENC, no close-object flag, interleaved with the
+   FDT packets IN ANY WAY (mix: its FDT packets are skipn j fcyc ++ fcyc, its object packets are pre, in these
+   orders); then the rest of the object's packets [pkts] in any form.  genuine / close_flag_ok / recoverable are those
+   of pre ++ pkts.  Conclusion: session_delivered (C02_session_statements).  The packets of the partial transmission
+   are kept (they are symbols of the same instance id), the inner object receiver completes as soon as every source
+   symbol of d is there.
+   The fully general form (any interleaving, FDT copies also after the object's packets) is
+   C02_session_multi_fdt_delivers.  Not covered: a close-object flag on an FDT packet of the partial transmission
+   (C02_session_multi_fdt_guards: the instance is dropped and must be received again from scratch), FDT packets
+   without EXT_FTI, other FDT instance ids in between, several objects. *)
+Theorem C16_session_mid_fdt_join_nocode :
+  forall E parse_fdt cfg oti content toi md5 now id foti d inst fcyc (j : nat) pre mix pkts,
+  let L := lenN_ content in
+  let Ld := lenN_ d in
+  nocode_ok oti L -> toi <> 0 ->
+  nocode_ok foti Ld -> Ld <= 1048576 -> nb_blocks_of foti Ld <= 4097 ->
+  parse_fdt d = Some inst ->
+  fdt_entry_for (fi_files inst) (fi_oti inst) toi oti L md5 ->
+  writer_accepts E toi -> writes_succeed E toi -> md5_good E content md5 ->
+  L <= cf_max_cache cfg -> nb_blocks_of oti L <= 4097 ->
+  Forall (fdt_pkt_multi cfg inst now id foti d) fcyc ->
+  Forall (fun p => a_close_obj p = false) fcyc -> recoverable foti Ld fcyc = true ->
+  fdt_of mix = skipn j fcyc ++ fcyc -> obj_of mix = pre ->
+  Forall (fun p => a_toi p = toi) (pre ++ pkts) ->
+  Forall (fun p => genuine_pkt oti content p = true) (pre ++ pkts) ->
+  Forall (fun p => a_oti p = Some (oti, L) /\ a_cenc p = None /\ a_close_obj p = false) pre ->
+  close_flag_ok oti L (pre ++ pkts) -> recoverable oti L (pre ++ pkts) = true ->
+  let '(_, r, c) := recv_run E parse_fdt cfg recv0 (map (fun p => RvPush p now) (mix ++ pkts)) ctx0 in
+  session_delivered cfg inst content toi r c.
+Proof. exact session_mid_fdt_join_delivers. Qed.
+Print Assumptions C16_session_mid_fdt_join_nocode.
+
+(* non-vacuity: the 3-packet instance of C02_session_multi_fdt_example, cycle (0,0) (0,1) (1,0); the receiver joins at
+   packet 1, three packets of the object with EXT_FTI are interleaved with the five FDT packets it sees; then the other
+   two packets of the object - with and without receive-once (without it the FDT packets that follow the completion
+   start a second, partial reception of the instance) - by computation and by the theorem; and every join offset with
+   the object's EXT_FTI packets between the partial and the whole transmission *)
+Example C16_session_mid_fdt_join_example :
+  map pid_of (fdt_of mx_mix) = [(0, 1); (1, 0); (0, 0); (0, 1); (1, 0)]
+  /\ fdt_of mx_mix = skipn 1 [f00; f01; f10] ++ [f00; f01; f10] /\ obj_of mx_mix = mx_pre
+  /\ sessx mx_parse (tx_cfg true false) (mx_mix ++ skipn 3 ex_pkts)
+     = ([POk; POk; POk; POk; POk; POk; POk; POk; POk; POk], [], [7], [], [], 1%nat, delivered_log)
+  /\ sessx mx_parse (tx_cfg false false) (mx_mix ++ skipn 3 ex_pkts)
+     = ([POk; POk; POk; POk; POk; POk; POk; POk; POk; POk], [], [7], [], [(1, FReceiving)], 1%nat, delivered_log)
+  /\ forallb (fun j => match sessx mx_parse (tx_cfg true false)
+                               (skipn j [f00; f01; f10] ++ mx_pre ++ [f00; f01; f10] ++ skipn 3 ex_pkts) with
+                       | (_, [], [7], [], [], 1%nat, _) => true
+                       | _ => false end) [0; 1; 2; 3; 4]%nat = true.
+Proof. vm_compute. repeat split. Qed.
+
+Example C16_session_mid_fdt_join_by_theorem : forall once,
+  let '(_, r, c) := recv_run env_ok mx_parse (tx_cfg once false) recv0
+                             (map (fun p => RvPush p 100%Z) (mx_mix ++ skipn 3 ex_pkts)) ctx0 in
+  session_delivered (tx_cfg once false) (tx_inst false None) ex_content 7 r c.
+Proof. exact mx_midjoin_by_theorem. Qed.
+(* ===== end block: C02MultiFdt ===== *)
